@@ -46,7 +46,13 @@ def path(ctx, params):
     info = dict(name=name, n=n)
     try:
         val = f(x)
-        grad = g(np.array(list(xs)))
+        if name == "griewank":
+            # domain: cos(x_i/sqrt(i)) != 0 (the quotient form of the gradient is 0/0 there); assumed, not forked
+            ctx.cache["assume_divisors_nonzero"] = True
+        try:
+            grad = g(np.array(list(xs)))
+        finally:
+            ctx.cache.pop("assume_divisors_nonzero", None)
     except PathAbort:
         raise
     except Unsupported:
